@@ -114,6 +114,9 @@ class _LazyStackedTensorDictKeysView(_TensorDictKeysView):
     tensordict: LazyStackedTensorDict
 
     def __len__(self) -> int:
+        if self.include_nested or self.leaves_only:
+            # count what __iter__ yields
+            return super().__len__()
         return len(self._keys())
 
     def _keys(self) -> list[str]:
